@@ -1,6 +1,7 @@
-(* C15 — the write-time guard (validateProposedConfigEntryInServiceGraph) and the two places where
-   the faithful model refutes the property as worded: flatten depends on the map iteration order,
-   and the guard looks one hop only. *)
+(* C15 — the write-time guard (validateProposedConfigEntryInServiceGraph), and the two inputs on
+   which the code used to violate the property (both repaired upstream: 2e58eb8 sorts the node ids
+   in flattenAdjacentSplitterNodes, f9df4b1 walks the link index transitively), kept as regression
+   witnesses. *)
 From Verif Require Import Base.Prelude.
 From Verif Require Import Chain.Model.
 From Verif Require Import Chain.Lemmas.
@@ -48,7 +49,7 @@ Proof.
       split; [discriminate|]. intros _. right. cbn [no_validation]. auto.
 Qed.
 
-(* ------------------------------------------------------------------ refutations *)
+(* ------------------------------------------------------------------ regression witnesses *)
 
 Definition E_proxy_http := EProxy "http".
 
@@ -70,14 +71,21 @@ Definition start_edges (r : cres graph) : list sedge :=
 
 Definition weights (r : cres graph) : list N := map fst (start_edges r).
 
-(* the same entries compile to different split weights depending on the order in which
-   flattenAdjacentSplitterNodes meets the nodes of the Go map *)
-Lemma flatten_order_matters :
-  weights (compile deep_entries test_ctx "a" order_parents_first) = [208; 1459; 1667; 6667]%N /\
-  weights (compile deep_entries test_ctx "a" order_children_first) = [208; 1458; 1667; 6667]%N.
+(* why flattenAdjacentSplitterNodes has to visit the nodes in a fixed order: the loop itself, run
+   with two different visiting orders on the same entries, gives different split weights *)
+Lemma flatten_order_would_matter :
+  weights (compile_ord deep_entries test_ctx "a" order_parents_first) = [208; 1459; 1667; 6667]%N /\
+  weights (compile_ord deep_entries test_ctx "a" order_children_first) = [208; 1458; 1667; 6667]%N.
 Proof. split; vm_compute; reflexivity. Qed.
 
-(* router a -> splitter b -> c, everything http; then service-defaults c switches to grpc *)
+(* ... whereas the compiler (sorted ids) gives one result for every map iteration order *)
+Lemma deep_chain_fixed :
+  weights (compile deep_entries test_ctx "a" [NSplitter "c"; NSplitter "b"; NSplitter "a"]) = [208; 1459; 1667; 6667]%N /\
+  weights (compile deep_entries test_ctx "a" []) = [208; 1459; 1667; 6667]%N.
+Proof. split; vm_compute; reflexivity. Qed.
+
+(* router a -> splitter b -> c, everything http; then service-defaults c switches to grpc:
+   chain "a" reaches c only through b; the write is now refused and the store is unchanged *)
 Definition indirect_store : list entry :=
   [ EDefaults "a" "http" false; EDefaults "c" "http" false;
     ESplitter "b" [Split 10000 "c" ""]%N;
@@ -85,8 +93,9 @@ Definition indirect_store : list entry :=
 
 Definition indirect_op : wop := WPut (EDefaults "c" "grpc" false).
 
-Lemma guard_one_hop_only :
+Lemma guard_two_hops_rejected :
   forallb (compiles indirect_store) ["a"; "b"; "c"] = true /\
-  write indirect_store indirect_op = (proposed indirect_store indirect_op, true) /\
-  compile (proposed indirect_store indirect_op) test_ctx "a" [] = Err EProtocolMismatch.
-Proof. split; [|split]; vm_compute; reflexivity. Qed.
+  affected indirect_store (op_key indirect_op) = ["c"; "b"; "a"] /\
+  compile (proposed indirect_store indirect_op) test_ctx "a" [] = Err EProtocolMismatch /\
+  write indirect_store indirect_op = (indirect_store, false).
+Proof. repeat split; vm_compute; reflexivity. Qed.
